@@ -1,6 +1,7 @@
 package main
 
 import (
+	"time"
 	"fmt"
 	"go/token"
 	"go/types"
@@ -70,6 +71,7 @@ func (vc *FuncVC) Verify() (err error) {
 		return fmt.Errorf("function %s has no body", fn)
 	}
 	vc.initPrelude()
+	vc.started = time.Now()
 	st := &State{heaps: map[string]Term{}}
 	st.alloc = vc.sc.Const("alloc.0", ArraySort(SRef, SBool))
 	st.assume(Not(Select(st.alloc, tNull)))
@@ -115,7 +117,21 @@ func (vc *FuncVC) Verify() (err error) {
 	vc.entry = st.snapshot()
 	vc.entry.pc = nil
 	vc.subtypeObligations(st, fr)
-	// vacuity: the precondition must be satisfiable
+	// vacuity: the axioms alone, and the precondition with the axioms, must be satisfiable
+	vc.w.mu.Lock()
+	first := !vc.w.axiomsChecked[vc.bv]
+	vc.w.axiomsChecked[vc.bv] = true
+	vc.w.mu.Unlock()
+	if first {
+		var ax []string
+		for _, a := range vc.axioms {
+			ax = append(ax, a.term)
+		}
+		o := &Obligation{Fn: shortName(vc.fn.String()), Name: "cover.axioms", Kind: "cover", Desc: "all theory and contract axioms together are satisfiable", Vacuity: true}
+		o.Script = vc.sc.Render(len(vc.sc.decls), ax, vc.strAxioms(), tFalse, false)
+		o.Bytes = len(o.Script)
+		vc.obls = append(vc.obls, o)
+	}
 	vc.emitCover(st, "cover.pre", "precondition and axioms are satisfiable", fn.Pos())
 	fr.retK = func(st *State, res []Value) { vc.atExit(st, fr, res) }
 	vc.run(func() { vc.execBlock(st, fn.Blocks[0], nil) })
@@ -416,6 +432,9 @@ func (vc *FuncVC) execBlock(st *State, b *ssa.BasicBlock, prev *ssa.BasicBlock) 
 	vc.paths++
 	if vc.paths > vc.maxPaths*5 {
 		panic(trError{"path budget exceeded"})
+	}
+	if vc.paths%64 == 0 && time.Since(vc.started) > 120*time.Second {
+		panic(trError{"generation time budget (120 s) exceeded"})
 	}
 	fr := st.fr
 	loops := vc.loopsOf(fr.fn)
@@ -950,6 +969,12 @@ func (vc *FuncVC) eval(st *State, v ssa.Value) Value {
 	case *ssa.IndexAddr:
 		return vc.execIndexAddr(st, x)
 	case *ssa.Index:
+		if isString(x.X.Type()) {
+			sv := vc.term(st, x.X)
+			iv := vc.term(st, x.Index)
+			vc.safety(st, "safe.idx", vc.inBounds(iv, mk(SInt, "slen", sv)), "string index out of range", x.Pos())
+			return mk(SInt, "sat", sv, iv)
+		}
 		panic(trError{"indexing array values is not supported"})
 	case *ssa.UnOp:
 		return vc.execUnOp(st, x)
@@ -1386,8 +1411,12 @@ func isByteSlice(t types.Type) bool {
 
 // makeIface boxes a value into an interface value.
 func (vc *FuncVC) makeIface(st *State, v Value, t types.Type) Term {
-	if _, isIface := t.Underlying().(*types.Interface); isIface {
-		return v.(Term)
+	if it, isIface := t.Underlying().(*types.Interface); isIface {
+		iv := v.(Term)
+		if it.NumMethods() > 0 {
+			st.assume(Implies(Not(Eq(ITag(iv), IntLit(0))), vc.implementsIface(st, iv, it)))
+		}
+		return iv
 	}
 	tag := IntLit(int64(vc.w.TagOf(t)))
 	switch vc.sortOf(t) {
